@@ -14,9 +14,7 @@ storages / id offsets / pruner instances and TLC checks that they form a functio
 from __future__ import annotations
 
 import concurrent.futures as cf
-import itertools
 import math
-import os
 import tempfile
 
 from . import common, tlc
@@ -127,7 +125,7 @@ class Player:
         except Exception as e:  # an exception of the pruner on a legal history is an answer no action allows
             self.ev.append({"a": "ShouldPrune", "t": t, "d": 8, "exc": repr(e)[:200]})
             return False
-        if type(d).__name__ not in ("bool", "bool_", "bool"):       # numpy.bool_ is what percentile returns
+        if type(d).__name__ not in ("bool", "bool_"):       # numpy.bool_ is what the percentile pruner returns
             code = 7
         else:
             code = 1 if d else 0
@@ -465,17 +463,17 @@ def run(ctx):
         traces.append(tr)
         ctx.count_case({"c": p.c, "ev": p.ev}, nontrivial=any(e["a"] == "ShouldPrune" for e in p.ev))
 
-    n_sim = 1000 if ctx.quick else 12000
+    n_sim = 900 if ctx.quick else 12000
     t0 = time.time()
     behs = tlc.simulate("PrunersMC", "PrunersMC_sim", num=n_sim, depth=34, seed=ctx.seed + 1, timeout=600)
     ph["simulate_s"] = round(time.time() - t0, 1)
     t0 = time.time()
     for i, b in enumerate(behs):
         add(play_tlc_behaviour(rng, b, storages, "mem" if i % 10 else "memoff"), "tlc")
-    n_rand = 2200 if ctx.quick else 40000
+    n_rand = 2000 if ctx.quick else 40000
     for i in range(n_rand):
         add(play_random(rng, storages, "mem" if i % 12 else "memoff"), "random")
-    n_sql = 48 if ctx.quick else 600
+    n_sql = 40 if ctx.quick else 600
     for i in range(n_sql):
         add(play_random(rng, storages, "sqlite", kind=["hyperband", "sha", "percentile", "patient"][i % 4]), "random-sqlite")
     n_plays = len(traces)
